@@ -262,6 +262,10 @@ def boxSum : List Nat → (List Nat → α) → α
   | [], f => f []
   | d :: ds, f => sumRange d (fun j => boxSum ds (fun js => f (j :: js)))
 
+/-- entries of the product `A·B` with inner extent `d` -/
+def mulEnt (a b : Nat → Nat → α) (d : Nat) : Nat → Nat → α :=
+  fun i k => sumRange d (fun j => a i j * b j k)
+
 /-- identity placeholder entries -/
 def delta (i j : Nat) : α := if i = j then 1 else 0
 
